@@ -91,7 +91,7 @@ def confirm_integration(h, ov, logdir, replay_path, testfile, release=False):
     return None, "native replay did not run (see %s)" % lf
 
 
-INTEGRATION = {"stream": "stream_native.rs", "f2": "defects_native.rs:f2_", "f3": "defects_native.rs:f3_", "f4": "defects_native.rs:f4_",
+INTEGRATION = {"stream": "stream_native.rs", "f2": "defects_native.rs:f2_", "f3": "defects_native.rs:f3_", "f4": "defects_native.rs:f4_", "f5": "defects_native.rs:f5_",
                "overclaim": "overclaim_native.rs"}
 
 
